@@ -163,6 +163,7 @@ pub fn finish(
 
     let mut new_violations = 0;
     let mut known_hits = 0;
+    let mut not_reproduced: Vec<String> = Vec::new();
     let mut lines = Vec::new();
     for (sig, v) in &by_sig {
         let replay = json!({
@@ -172,9 +173,9 @@ pub fn finish(
         match confirm(&v.case) {
             got if got.iter().any(|(c, _)| *c == v.clause) => {}
             other => {
-                tally.harness_errors.push(format!(
-                    "violation {} ({}) did not reproduce from its replay description: got {:?}",
-                    v.clause, v.detail, other
+                not_reproduced.push(format!(
+                    "violation {} ({}) was observed in a simulated execution but did not reproduce from its replay description alone: got {:?}",
+                    v.clause, v.detail, other.iter().map(|x| &x.0).collect::<Vec<_>>()
                 ));
                 continue;
             }
@@ -237,6 +238,17 @@ pub fn finish(
         "{} {} seed={} evaluations={} distinct_nontrivial={} violations={} known_findings={} wall={:.1}s",
         meta.property, meta.tier, meta.seed, tally.evaluations, distinct, new_violations, known_hits, wall_s
     ));
+    // A violation that was observed but cannot be replayed from its explicit description means the
+    // behaviour depended on something outside the description (hidden state in the code under
+    // test, or a harness fault). It is never reported as a VIOLATION. If other violations of this
+    // run do replay, those are reported (exit 1) and this is a note; if none does, it is a
+    // harness error (exit 2): no verdict.
+    for n in not_reproduced.iter().take(5) {
+        say(&format!("NOTE: {n}"));
+    }
+    if !not_reproduced.is_empty() && new_violations == 0 && known_hits == 0 {
+        tally.harness_errors.push(format!("{} observed violation(s) did not replay; no replayable violation in this run", not_reproduced.len()));
+    }
     if !tally.harness_errors.is_empty() {
         for e in tally.harness_errors.iter().take(10) {
             say(&format!("HARNESS-ERROR: {e}"));
